@@ -117,7 +117,12 @@ def check_ports(ctx, rng):
         bts, bb = rng.choice([5700, 5800, 5701, 5803, 1025, 40001]), rng.choice([6700, 6900, 6701, 6903, 2049, 50000])
         extra = {7700: rng.choice([7700, 7701, 7900]), 8700: rng.choice([8700, 8703, 9001])}
         defs = [(a, bts if p == 5700 else (bb if p == 6700 else extra.get(p, p)), i) for a, p, i in defs]
-        s = Session(defs, bts, bb)
+        try:
+            s = Session(defs, bts, bb)
+        except Exception as e:  # noqa
+            ctx.oracle_fail("the Application cannot be constructed from valid --trx definitions", dict(trx_defs=defs, exception="%s: %s" % (type(e).__name__, e)),
+                            key="c12-constructor-raises:" + type(e).__name__)
+            continue
         try:
             for t in s.trxs:
                 base, idx = t.base_port, t.child_idx
